@@ -349,16 +349,38 @@ def run(chk, prog):
                         "%s can serve a client over the plain socket although TLS is configured (%s)" % (g.path, why))
 
     # ---------------------------------------------------------------- (6) upstream verification
+    # the constructor(s) of the accept-anything verifier, found by content: local functions that instantiate the type implementing
+    # rustls ServerCertVerifier (whatever the function or the type is called)
+    vimpls = [prog.types["redproxy_rs"][i["self_ty"]]["s"] for i in prog.items["redproxy_rs"]["impls"] if i.get("trait", "").endswith("ServerCertVerifier")]
+    INSECURE_CTORS.clear()
+    AGG_SITES = []
+    for f_ in prog.fns.values():
+        if f_.crate != "redproxy_rs" or f_.kind not in ("Fn", "AssocFn"):
+            continue
+        for b_ in f_.reachable:
+            for st_ in f_.stmts(b_):
+                if st_["k"] == "assign" and st_["rv"]["k"] == "agg" and st_["rv"].get("def") in vimpls:
+                    if "ServerCertVerifier" in f_.ty(f_.locals[0]["ty"])["s"]:
+                        INSECURE_CTORS.add(f_.key)            # a dedicated constructor: its call sites are the sites to gate
+                    else:
+                        AGG_SITES.append((f_, b_, st_))       # built in place (e.g. after the constructor was inlined): gate this site
     n6 = 0
+    for (f_, b_, st_) in AGG_SITES:
+        n6 += 1
+        ok = _under_insecure(prog, f_, b_)
+        chk.instance("insecure-gate", "%s:%s" % (f_.file, st_.get("sp", {}).get("l", f_.line)), "the accept-anything verifier built in %s is guarded by the insecure flag" % f_.path, ok)
+        if not ok:
+            chk.finding("insecure-gate", f_.key, "verifier-built", "", "%s:%s" % (f_.file, st_.get("sp", {}).get("l", f_.line)),
+                        "%s builds the certificate verifier that accepts anything outside the `insecure` branch" % f_.path)
     for f in prog.fns.values():
         if f.crate != "redproxy_rs":
             continue
-        danger = [c for c in f.calls if re.search(r"tls::TlsClientConfig::insecure_verifier$|DangerousClientConfig::set_certificate_verifier$", c.name or "")]
+        danger = [c for c in f.calls if (c.local_key() in INSECURE_CTORS) or re.search(r"DangerousClientConfig::set_certificate_verifier$", c.name or "")]
         ex = [c for c in f.calls if any(f.str_of(a) == "example.com" for a in c.args)]
         for g2 in prog.children(f):
             pass
         for c in danger:
-            if "insecure_verifier" in f.path:
+            if f.key in INSECURE_CTORS:
                 continue
             n6 += 1
             ok = _under_insecure(prog, f, c.bb)
@@ -396,6 +418,27 @@ def run(chk, prog):
         chk.finding("insecure-gate", ti.key, "webpki", "", "%s:%s" % (ti.file, ti.line), "TlsClientConfig::init no longer installs WebPkiVerifier on the non-insecure edge")
 
 
+INSECURE_CTORS = set()
+
+
+def _names_along(f, l, depth=8):
+    """names of the locals a value was copied through (a flag handed to a helper keeps the meaning its names give it)"""
+    out = []
+    seen = set()
+    while l is not None and l not in seen and depth > 0:
+        seen.add(l)
+        depth -= 1
+        n = f.local_name(l)
+        if n:
+            out.append(n)
+        d = f.single_def(l)
+        if not d or d[1] == "term" or d[2]["k"] not in ("use", "cast") or "k" in d[2]["a"]:
+            break
+        p = op_place(d[2]["a"])
+        l = p[0] if p and len(p) == 1 else None
+    return out
+
+
 def _under_insecure(prog, f, bb):
     """block is dominated by the true edge of a test of an `insecure` flag (field or local derived from it)"""
     for b in f.reachable:
@@ -405,7 +448,7 @@ def _under_insecure(prog, f, bb):
         l = op_base(t["d"])
         if l is None:
             continue
-        desc = str(op_place(t["d"])) + str(f.trace(l)) + (f.local_name(l) or "")
+        desc = str(op_place(t["d"])) + str(f.trace(l)) + (f.local_name(l) or "") + " ".join(_names_along(f, l))
         # closure upvars:  tls_insecure captured by reference
         for u in f.j.get("upvars", []):
             if u["name"].endswith("insecure") and str(u["p"][0]) in desc:
